@@ -166,6 +166,7 @@ func (s *shrinker) pass() bool {
 }
 
 func cmdShrink(args []string) int {
+	startWatchdog()
 	fs := flag.NewFlagSet("shrink", flag.ExitOnError)
 	in := fs.String("in", "", "")
 	out := fs.String("out", "", "")
